@@ -108,6 +108,7 @@ def check(chk, fx):
     termrules.termapi(chk, fx)
     from .. import primrules
     primrules.prims(chk, fx, "UTIL", "TVAL")
+    primrules.prims(chk, fx, "NAMEFILL")
 
 
 def rep3(chk, fx, table, site):
